@@ -24,9 +24,19 @@ import (
 
 const (
 	verifDir = "/verif"
-	repoDir  = "/repo"
 	goBin    = "go1.26.8"
 )
+
+var repoDir = "/repo"
+
+// outDir is where evidence/ and replays/ are written: /verif, or $VERIF_OUT for
+// development runs against seeded changes (so that they do not overwrite the real ones).
+var outDir = func() string {
+	if d := os.Getenv("VERIF_OUT"); d != "" {
+		return d
+	}
+	return verifDir
+}()
 
 type violation struct {
 	Property  string `json:"property"`
@@ -169,7 +179,11 @@ func build(race bool) {
 	args = append(args, "./simtest")
 	cmd := exec.Command(goBin, args...)
 	cmd.Dir = filepath.Join(verifDir, "sim")
-	if skip := os.Getenv("VERIF_SKIP"); skip != "" {
+	altRepo := os.Getenv("VERIF_REPO")
+	if altRepo != "" {
+		repoDir = altRepo
+	}
+	if skip := os.Getenv("VERIF_SKIP"); skip != "" || altRepo != "" {
 		// development aid: build from a private copy without files that are still being written
 		src := filepath.Join(workDir, "src")
 		rs := []string{"-a", "--delete"}
@@ -181,6 +195,17 @@ func build(race bool) {
 			die(2, "rsync: %v\n%s", err, out)
 		}
 		cmd.Dir = src
+		if altRepo != "" {
+			// development aid: build against another checkout of the repository (a scratch
+			// worktree with a seeded change, a snapshot) instead of /repo
+			gm, err := os.ReadFile(filepath.Join(src, "go.mod"))
+			if err != nil {
+				die(2, "go.mod: %v", err)
+			}
+			t := strings.ReplaceAll(string(gm), "=> /repo/lz4", "=> "+altRepo+"/lz4")
+			t = strings.ReplaceAll(t, "=> /repo\n", "=> "+altRepo+"\n")
+			os.WriteFile(filepath.Join(src, "go.mod"), []byte(t), 0o644)
+		}
 	}
 	cmd.Env = env
 	out, err := cmd.CombinedOutput()
@@ -717,7 +742,7 @@ func cmdCheck(prop string, args []string) {
 	if *tier == "thorough" {
 		shrinkBudget = 120 * time.Second
 	}
-	os.MkdirAll(filepath.Join(verifDir, "replays"), 0o755)
+	os.MkdirAll(filepath.Join(outDir, "replays"), 0o755)
 	for _, k := range keys {
 		g := groups[k]
 		if g.prop != prop {
@@ -733,7 +758,7 @@ func cmdCheck(prop string, args []string) {
 		// pick the example with the shortest tape
 		sort.Slice(g.ex, func(i, j int) bool { return len(g.ex[i].Tape) < len(g.ex[j].Tape) })
 		ex := g.ex[0]
-		path := filepath.Join(verifDir, "replays", fmt.Sprintf("%s-%s-%d.json", g.prop, slug(strings.TrimPrefix(g.sig, g.prop+"/")), ex.BaseSeed))
+		path := filepath.Join(outDir, "replays", fmt.Sprintf("%s-%s-%d.json", g.prop, slug(strings.TrimPrefix(g.sig, g.prop+"/")), ex.BaseSeed))
 		final := finalize(ex, g.sig, shrinkBudget, *seed, *tier)
 		final.Property = g.prop
 		final.RepoHead = repoHead()
@@ -745,7 +770,7 @@ func cmdCheck(prop string, args []string) {
 	for i, rep := range raceReports {
 		nviol++
 		exit = 1
-		path := filepath.Join(verifDir, "replays", fmt.Sprintf("%s-data-race-%d-%d.txt", prop, *seed, i))
+		path := filepath.Join(outDir, "replays", fmt.Sprintf("%s-data-race-%d-%d.txt", prop, *seed, i))
 		os.WriteFile(path, []byte(rep), 0o644)
 		fmt.Printf("VIOLATION property=%s replay=%s\n  signature: %s/data-race (race detector report of a real execution at GOMAXPROCS=4: not replayable)\n  %s\n", prop, path, prop, firstLine(strings.TrimSpace(strings.SplitN(rep, "\n", 3)[1])))
 		if i >= 2 {
